@@ -137,7 +137,7 @@ func allIdx(n int) []int {
 }
 
 func judge(c *mc.Ctx, family, prog string, kinds map[string]bool) mc.Verdict {
-	pr := psrun.NewPairBudget(opTable, 20000, 4000)
+	pr := psrun.NewPairBudget(opTable, 3000, 1200)
 	if r := pr.Step(preamble); !r.OK || r.Skipped {
 		return mc.Fail("C03:harness:preamble", r.Detail)
 	}
